@@ -11,6 +11,7 @@ package main
 //     garbage, hang) or realised by dialling a closed local port (refused).
 
 import (
+	"bytes"
 	"context"
 	"errors"
 	"fmt"
@@ -32,7 +33,7 @@ import (
 )
 
 // Fault kinds on the line protocol (the model's Outcome): error, timeout, deny, malformed.
-// Sub selects the realisation where several exist (webhook error: "5xx" | "refused" | "eof"
+// Sub selects the realisation where several exist (webhook error: "5xx" | "refused" | "eof" | "tls" (certificate of the endpoint not trusted)
 // (connection closed without an answer); webhook deny: "deny" | "null" | "emptyobj";
 // webhook malformed: "garbage" | "4xx" | "empty" (200 without body) | "truncated" | "wrongtype").
 type Fault struct {
@@ -138,8 +139,10 @@ func stepKind(op string, bucket []byte) string {
 		return "acmeStoreCert"
 	case op == "cas" && b == "acme_serial_certs_index":
 		return "acmeIndex"
+	case op == "cas" && b == "acme_authzs":
+		return "acmeAuthzUpdate"
 	case op == "cas" && b == "acme_orders":
-		return "acmeUpdateOrder"
+		return "acmeUpdateOrder" // (the order → ready write of a pending order is told apart below)
 	}
 	return "unknown-" + op + "-" + b
 }
@@ -198,6 +201,9 @@ func (d *faultDB) CmpAndSwap(bucket, key, old, newv []byte) ([]byte, bool, error
 		return d.DB.CmpAndSwap(bucket, key, old, newv)
 	}
 	k := stepKind("cas", bucket)
+	if k == "acmeUpdateOrder" && bytes.Contains(newv, []byte(`"status":"ready"`)) {
+		k = "acmeOrderReady" // Order.UpdateStatus of a pending order, not the final write
+	}
 	switch f.Kind {
 	case "":
 		d.rec.log(k, "ok")
@@ -346,6 +352,9 @@ type faultTransport struct {
 	rec    *Recorder
 	base   http.RoundTripper
 	closed string
+	// untrusted is the address of an https server whose certificate chain is unknown to the
+	// client ("tls": the handshake fails with an x509 error)
+	untrusted string
 }
 
 func (t *faultTransport) RoundTrip(req *http.Request) (*http.Response, error) {
@@ -376,6 +385,12 @@ func (t *faultTransport) RoundTrip(req *http.Request) (*http.Response, error) {
 			req.Host = t.closed
 		case "eof":
 			req.Header.Set(faultHeader, "eof")
+		case "tls":
+			if t.untrusted != "" {
+				req.URL.Scheme, req.URL.Host, req.Host = "https", t.untrusted, t.untrusted
+			} else {
+				req.Header.Set(faultHeader, "5xx")
+			}
 		default:
 			req.Header.Set(faultHeader, "5xx")
 		}
